@@ -6,9 +6,13 @@
 (* versions - so that one parent receives n*(m-1)*r updates (more than a      *)
 (* dozen: sort.Sort stops being an insertion sort) with equal (index, time)   *)
 (* keys.  Optionally a second parent version closes the interval.             *)
+(* tail = 1 / 2: one / two further parent versions (times 4, 7) each followed *)
+(* by one more edit of every child (times 5, 8): a busy EARLY parent version  *)
+(* (more than two updates per position) followed by quiet later ones, so that *)
+(* the per-parent update lists must stay apart.                               *)
 EXTENDS Integers, Sequences, FiniteSets, TLC, Json, IOUtils, SequencesExt, AnnotateSets
 
-CONSTANTS NSet, MSet, RSet, FamOpts
+CONSTANTS NSet, MSet, TailMSet, RSet, FamOpts
 
 \* times of versions 2 .. m: non-decreasing over {1, 2}
 TimePatterns(m) == {f \in [1 .. m - 1 -> 1 .. 2] : \A a \in 1 .. m - 2 : f[a] <= f[a + 1]}
@@ -26,8 +30,17 @@ Fam(n, m, r, tp0, alt, two, rev) ==
    par  |-> <<[t |-> 0, vis |-> TRUE, cs |-> 1, refs |-> RefsOf(n, r)]>> \o
             (IF two THEN <<[t |-> 4, vis |-> TRUE, cs |-> 2, refs |-> RefsOf(n, 1)]>> ELSE <<>>)]
 
+TailVers(tail) == [a \in 1 .. tail |-> [t |-> 2 + 3 * a, vis |-> TRUE, cs |-> 1 + a]]
+TailPars(n, r, tail) == [a \in 1 .. tail |-> [t |-> 1 + 3 * a, vis |-> TRUE, cs |-> 1 + a, refs |-> RefsOf(n, IF a = 1 THEN r ELSE 1)]]
+FamTail(n, m, r, tp, alt, tail) ==
+  [kids |-> [k \in 1 .. n |-> KidOf(m, tp, IF alt /\ k % 2 = 0 THEN 1 ELSE 0) \o TailVers(tail)],
+   par  |-> <<[t |-> 0, vis |-> TRUE, cs |-> 1, refs |-> RefsOf(n, r)]>> \o TailPars(n, r, tail)]
+
 Families == UNION { { Fam(n, m, r, tp, alt, two, rev) : tp \in TimePatterns(m), alt \in BOOLEAN, two \in BOOLEAN, rev \in BOOLEAN } :
                     n \in NSet, m \in MSet, r \in RSet }
+            \cup
+            UNION { { FamTail(n, m, r, tp, alt, tail) : tp \in TimePatterns(m), alt \in BOOLEAN, tail \in 1 .. 2 } :
+                    n \in NSet, m \in TailMSet, r \in RSet }
 
 ASSUME PrintT(<<"OPTS", ToJson(FamOpts)>>)
 ASSUME ndJsonSerialize(IOEnv.OUT, SetToSeq(Families))
